@@ -1,5 +1,6 @@
 """C20 - unassigned opcodes are soft-fork-safe no-ops."""
 import json, multiprocessing as mp
+from ..par import SafePool
 from ..common import Report
 from .. import vmcheck, vmmc, tlc, softfork
 
@@ -43,7 +44,7 @@ def mc_softfork(rep: Report, bound: int):
         return
     n = vmcheck.NPROC * 4
     chunks = [res.records[i::n] for i in range(n)]
-    with mp.get_context('fork').Pool(vmcheck.NPROC) as pool:
+    with SafePool(vmcheck.NPROC) as pool:
         outs = pool.map(_replay_sf, chunks)
     bad = 0
     for ci, out in enumerate(outs):
@@ -148,6 +149,59 @@ def same_bytes_clause(rep: Report):
     rep.extra['same_bytes_context_cases'] = n_ctx
 
 
+def rejected_install_clause(rep: Report):
+    """An install that is refused (bad name, non-callable, occupied or out-of-range code) changes nothing: the code is
+    still unassigned and still behaves, compiles and decompiles as NOPn - also when a valid install follows later."""
+    from .. import asmcheck
+    ts = asmcheck._impl()
+    import tapescript.functions as F
+    import tapescript.parsing as P
+    import tapescript.tools as T
+    tables = [F.opcodes, F.nopcodes, F.opcodes_inverse, F.nopcodes_inverse, F.opcode_aliases, P.additional_opcodes]
+    n = 0
+    for code in (92, 93, 177, 200, 254, 255):
+        saved = [dict(t) for t in tables]
+        try:
+            for label, args in (('name without OP_', (code, 'FORKBAD', softfork.make_op('never'))),
+                                ('non-callable', (code, 'OP_FORKX', 'not callable')),
+                                ('occupied code', (1, 'OP_FORKY', softfork.make_op('never'))),
+                                ('code 256', (256, 'OP_FORKZ', softfork.make_op('never')))):
+                n += 1
+                rep.case(f'rejected-install/{code}/{label}')
+                try:
+                    T.add_soft_fork(*args)
+                    refused = False
+                except (ValueError, TypeError):
+                    refused = True
+                problems = []
+                if not refused:
+                    problems.append('the install was not refused')
+                st, val = asmcheck.with_timeout(lambda: ts.compile_script(f'NOP{code} d1 OP_TRUE'), 5)
+                if st != 'ok' or val != bytes([code, 1, 1]):
+                    problems.append(f'NOP{code} d1 OP_TRUE compiles to {val.hex() if st == "ok" else val}')
+                st, val = asmcheck.with_timeout(lambda: ts.decompile_script(bytes([code, 1, 1])), 5)
+                if st != 'ok' or list(val) != [f'NOP{code} d1', 'OP_TRUE']:
+                    problems.append(f'decompile gives {val}')
+                try:
+                    ok = F.run_auth_scripts([bytes([2, 7, code, 1, 1])])
+                except BaseException as e:
+                    if isinstance(e, (KeyboardInterrupt, SystemExit)):
+                        raise
+                    ok = f'{type(e).__name__}: {e}'
+                if ok is not True:
+                    problems.append(f'push 7; NOP{code} 1; TRUE authorizes: {ok}')
+                if problems:
+                    rep.violation(f'after a refused install ({label}) at code {code}: ' + '; '.join(problems)[:500],
+                                  {'kind': 'rejected-install', 'code': code, 'label': label})
+                else:
+                    rep.traces += 1
+        finally:
+            for t, sv in zip(tables, saved):
+                t.clear()
+                t.update(sv)
+    rep.extra['rejected_install_cases'] = n
+
+
 def main(tier: str, seed: int) -> int:
     rep = Report('C20', tier, seed)
     rep.rule = ('MC: TapeVMMC family nop - every unassigned code 92..255 x every count byte 0..255 x stack depths 0..3 with '
@@ -170,6 +224,7 @@ def main(tier: str, seed: int) -> int:
         vmcheck.mc_family(rep, 'nop', 0)
     mc_softfork(rep, 2 if quick else 3)
     same_bytes_clause(rep)
+    rejected_install_clause(rep)
     base = seed * 1_000_003
     n = 1500 if quick else 30000
     for off in range(0, n, 10000):
